@@ -391,7 +391,7 @@ def twin_cases(draw, tier):
     n = draw(st.integers(3, 12))
     if op == 'since':
         # the bounded since costs (upper bound in samples)^2 per update: keep it tiny
-        num_a, num_b, n = 1, 1, draw(st.integers(2, 3))
+        num_a, num_b, n = 1, 1, 2
     return {'p': p, 'q': q, 'num_a': num_a, 'num_b': num_b, 'fine': fine, 'coarse': coarse, 'op': op, 'vars': vs,
             'trace': draw(F.traces(vs, n=n)), 'join': draw(st.sampled_from(['or', 'and', 'implies'])),
             'which': draw(st.sampled_from(['lower', 'upper']))}
